@@ -61,6 +61,7 @@ Inductive stmt :=
 | SReturn (r : option iopd)                          (* return;  return o; *)
 | SAssignG (g : nat) (o : iopd)                      (* g = o;  g op= e is g = g op e;  g an int global *)
 | SAssignGDiv (g : nat) (op : src_arith) (a b : iopd) (* g = a / b; *)
+| SAssignBG (h : nat) (e : bexpr)                    (* h = e;  for a bool global *)
 with stmts := SNil | SCons (s : stmt) (ss : stmts).
 
 (* ---------- self.local_vars / self.stack for the fragment ---------- *)
@@ -164,6 +165,11 @@ Definition assign_glob (S : senv) (g : nat) (o : iopd) : list aline :=
   c0 ++ c1 ++ (if is_state_of (RGlob g) v then [] else [AInstr (AMov (RGlob g) v)]).
 Definition assign_glob_div (S : senv) (g : nat) (op : src_arith) (a b : iopd) (da : label) : list aline :=
   fst (eval_div (env_of S) (top S) (RGlob g) op a b false da).
+(* Assignment to a bool global: dest = r1 (the accessor is StateByte); value = get_expr_value(r1, e);
+   StateByte.set: `sbs var_h, value` *)
+Definition assign_bglob (E : env) (h : nat) (e : bexpr) (st : lstate) : list aline * lstate :=
+  let '(c, v, st') := eval_bool_value E R1 e st in
+  (c ++ [AInstr (ASbs (SRegAddr (RBGlob h)) v)], st').
 Definition func_label (f : nat) : label := (LFunc f, 0%nat).
 Definition call_seq (S : senv) (ec : label) (f : nat) : list aline :=
   [AInstr (AArith Aadd RFp (SReg RFp) (SLit (- top S))); AInstr (AJump (SLab (func_label f))); AInstr AHaltI;
@@ -234,6 +240,7 @@ Fixpoint lower_stmt (S : senv) (li : option (label * label)) (s : stmt) (st : ls
   | SReturn r => (lower_return S r, S, st, true)
   | SAssignG g o => (assign_glob S g o, S, st, false)
   | SAssignGDiv g op a b => let (da, st1) := add_label LDivAllowed st in (assign_glob_div S g op a b da, S, st1, false)
+  | SAssignBG h e => let (c, st') := assign_bglob (env_of S) h e st in (c, S, st', false)
   end
 with lower_stmts (S : senv) (li : option (label * label)) (ss : stmts) (st : lstate)
   : list aline * senv * lstate * bool :=
@@ -296,6 +303,7 @@ Fixpoint need_stmt (S : senv) (s : stmt) : Z * senv :=
   | SReturn None => (top S, S)
   | SAssignG _ o => (need_int S o false, S)
   | SAssignGDiv _ op a b => (need_int S (OArith op a b) false, S)
+  | SAssignBG _ e => (top S + Z.of_nat (temps_b e) * ws S, S)
   end
 with need_stmts (S : senv) (ss : stmts) : Z :=
   match ss with
@@ -376,7 +384,8 @@ Inductive dline :=
 | DLab (name : string)                 (* name: *)
 | DWordSym (name val : string)         (* name: .word val   (name may be empty) *)
 | DZeroW (n : Z)                       (* .zero <n>w *)
-| DArg (name : string).                (* .arg name word *)
+| DArg (name : string)                 (* .arg name word *)
+| DByteSym (val : string).             (* .byte val *)
 Open Scope string_scope.
 Definition param_name (i : nat) : string := "a" ++ dec (Z.of_nat i).
 Definition state_section (stack_size : Z) (nparams : nat) : list dline :=
@@ -391,6 +400,7 @@ Definition print_dline (d : dline) : string :=
   | DWordSym n v => n ++ ": .word " ++ v
   | DZeroW n => ".zero " ++ dec n ++ "w"
   | DArg n => ".arg " ++ n ++ " word"
+  | DByteSym v => ".byte " ++ v
   end.
 Close Scope string_scope.
 
@@ -398,21 +408,25 @@ Close Scope string_scope.
 (* lookup_var / make_global: a non-const global gets its word in the state section, after
    stack_end, when it is first looked up while code is generated; `globals_order` is that order.
    (const globals with a literal initialiser are immediates: the correspondence folds them.) *)
-Fixpoint grefs_opd (o : iopd) : list nat :=
+Inductive gref := GI (g : nat) | GB (h : nat).     (* an int global / a bool global *)
+Definition gref_eqb (a b : gref) : bool :=
+  match a, b with GI g, GI h | GB g, GB h => Nat.eqb g h | _, _ => false end.
+Fixpoint grefs_opd (o : iopd) : list gref :=
   match o with
-  | OGlob g => [g]
+  | OGlob g => [GI g]
   | OArith _ x y => grefs_opd x ++ grefs_opd y
   | OUn _ x => grefs_opd x
   | _ => []
   end.
-Fixpoint grefs_b (e : bexpr) : list nat :=
+Fixpoint grefs_b (e : bexpr) : list gref :=
   match e with
+  | BVar (BGlobal h) => [GB h]
   | BCmp _ a b => grefs_opd a ++ grefs_opd b
   | BNot e1 => grefs_b e1
   | BAnd e1 e2 | BOr e1 e2 => grefs_b e1 ++ grefs_b e2
   | _ => []
   end.
-Fixpoint grefs_stmt (s : stmt) : list nat :=
+Fixpoint grefs_stmt (s : stmt) : list gref :=
   match s with
   | SDeclI o | SAssignI _ o | SWriteI _ o | SWrite (WrByte o) | SReturn (Some o) => grefs_opd o
   | SDeclB e | SAssignB _ e | SWriteB _ e => grefs_b e
@@ -420,27 +434,39 @@ Fixpoint grefs_stmt (s : stmt) : list nat :=
   | SWhile c b k => grefs_b c ++ grefs_stmts b ++ grefs_stmts k
   | SBlock ss => grefs_stmts ss
   | SDeclDiv _ a b | SAssignDiv _ _ a b => grefs_opd a ++ grefs_opd b
-  | SCall d _ args => match d with DAssignG g => [g] | _ => [] end ++ flat_map grefs_opd args
-  | SAssignG g o => g :: grefs_opd o                      (* the target is looked up first *)
-  | SAssignGDiv g _ a b => g :: grefs_opd a ++ grefs_opd b
+  | SCall d _ args => match d with DAssignG g => [GI g] | _ => [] end ++ flat_map grefs_opd args
+  | SAssignG g o => GI g :: grefs_opd o                   (* the target is looked up first *)
+  | SAssignGDiv g _ a b => GI g :: grefs_opd a ++ grefs_opd b
+  | SAssignBG h e => GB h :: grefs_b e
   | _ => []
   end
-with grefs_stmts (ss : stmts) : list nat :=
+with grefs_stmts (ss : stmts) : list gref :=
   match ss with
   | SNil => []
   | SCons s r => grefs_stmt s ++ (if exits s then [] else grefs_stmts r)
   end.
-Definition globals_order (funs : list fundef) : list nat :=
-  add_new [] (flat_map (fun f => match nth_error funs f with Some fd => grefs_stmts (fn_body fd) | None => [] end)
-                       (program_order funs)).
-(* the state section with the globals: ginit g = the initial value of global g *)
+Fixpoint add_newg (seen new : list gref) : list gref :=
+  match new with
+  | [] => seen
+  | f :: r => add_newg (if existsb (gref_eqb f) seen then seen else seen ++ [f]) r
+  end.
+Definition globals_order (funs : list fundef) : list gref :=
+  add_newg [] (flat_map (fun f => match nth_error funs f with Some fd => grefs_stmts (fn_body fd) | None => [] end)
+                        (program_order funs)).
+(* the state section with the globals: ginit g / binit h = the initial values *)
 Open Scope string_scope.
-Definition state_section_g (stack_size : Z) (nparams : nat) (funs : list fundef) (ginit : nat -> Z) : list dline :=
+Definition state_section_g (stack_size : Z) (nparams : nat) (funs : list fundef) (ginit binit : nat -> Z) : list dline :=
   state_section stack_size nparams
-  ++ flat_map (fun g => [DLab (reg_str (RGlob g)); DWordSym "" (dec (ginit g))]) (globals_order funs).
+  ++ flat_map (fun r => match r with
+                        | GI g => [DLab (reg_str (RGlob g)); DWordSym "" (dec (ginit g))]
+                        | GB h => [DLab (reg_str (RBGlob h)); DByteSym (dec (binit h))]
+                        end) (globals_order funs).
 Close Scope string_scope.
-(* where hidc's layout puts global g: the words after stack_end, in that order *)
-Fixpoint index_of (g : nat) (l : list nat) : nat :=
-  match l with [] => O | x :: r => if Nat.eqb x g then O else S (index_of g r) end.
-Definition glob_addr (w stack_size : Z) (nparams : nat) (funs : list fundef) (g : nat) : Z :=
-  (stack_size + Z.of_nat nparams + 6) * w + Z.of_nat (index_of g (globals_order funs)) * w.
+(* where hidc's layout puts the globals: after stack_end, in that order, a word / a byte each *)
+Fixpoint gref_off (w : Z) (r : gref) (l : list gref) : Z :=
+  match l with
+  | [] => 0
+  | x :: t => if gref_eqb x r then 0 else (match x with GI _ => w | GB _ => 1 end) + gref_off w r t
+  end.
+Definition glob_addr (w stack_size : Z) (nparams : nat) (funs : list fundef) (r : gref) : Z :=
+  (stack_size + Z.of_nat nparams + 6) * w + gref_off w r (globals_order funs).
